@@ -237,6 +237,9 @@ func alphabet(v variant, tier string) ([]string, []opDesc) {
 		names = append(names, fmt.Sprintf("UpsertRefused(u%d,w=-1)", u))
 		descs = append(descs, opDesc{9, u, -1})
 	}
+	// ... also when the refused option follows one that would have been accepted (drain, then an invalid weight)
+	names = append(names, "UpsertRefused(u0,w=0,w=-1)")
+	descs = append(descs, opDesc{9, 0, 0})
 	for u := 0; u < nurl; u++ {
 		names = append(names, fmt.Sprintf("Upsert(u%d)", u))
 		descs = append(descs, opDesc{2, u, -1})
@@ -297,7 +300,11 @@ func model(v variant, tier string, depth int) *lib.Model[*sys] {
 		case 9:
 			known := s.ref.find(identity(u)) >= 0
 			s.upserting = identity(u)
-			err := s.front().UpsertServer(u, roundrobin.Weight(-1))
+			opts := []roundrobin.ServerOption{roundrobin.Weight(-1)}
+			if d.weight >= 0 {
+				opts = []roundrobin.ServerOption{roundrobin.Weight(d.weight), roundrobin.Weight(-1)}
+			}
+			err := s.front().UpsertServer(u, opts...)
 			s.upserting = ""
 			if err == nil {
 				return fmt.Sprintf("ACCEPTED/known=%v", known)
